@@ -64,7 +64,22 @@ func (p *Path) render(t Term, depth int) string {
 			return "nil"
 		}
 		return x.Value.ExactString()
+	case *ssa.TypeAssert:
+		// the payload wrapper of a protobuf oneof reached through a type assertion / type switch: named like the getter chain
+		if pt, ok := x.AssertedType.(*types.Pointer); ok {
+			if nt, ok := pt.Elem().(*types.Named); ok && strings.Contains(nt.Obj().Name(), "_") && nt.Obj().Pkg() != nil && strings.HasPrefix(nt.Obj().Pkg().Path(), "github.com/openfga/api/proto") {
+				inner := sub(x.X)
+				if i := strings.LastIndex(inner, "."); i > 0 && !strings.HasSuffix(inner, ")") {
+					return inner[:i]
+				}
+			}
+		}
 	case *ssa.Extract:
+		if ta, ok := x.Tuple.(*ssa.TypeAssert); ok && ta.CommaOk && x.Index == 0 {
+			if s := sub(ta); !strings.HasPrefix(s, "‹") {
+				return s
+			}
+		}
 		return sub(x.Tuple) + fmt.Sprintf("#%d", x.Index)
 	case *ssa.Lookup:
 		return sub(x.X) + "[" + sub(x.Index) + "]"
